@@ -318,7 +318,12 @@ class Transpiler:
             # comparisons of the double-beta kernel against its tabulated / integrated spectra: their noise level is measured
             # per configuration (first-lepton table of port vs model) and must not be charged to branch decisions elsewhere
             if getattr(self, 'u', None) is not None and self.u.name.lower() in TABLE_UNITS:
-                return ('TCMP_%s(%s, %s, %d)' % (self.REL[op], l[0], r[0], self.curline), 'bool')
+                # only the tests that read the tables or the sampled spectrum values carry the table noise; the angular
+                # rejection tests of the kernel are closed forms of the two energies (shape class, like the beta samplers)
+                txt = (l[0] + ' ' + r[0]).lower()
+                if any(w in txt for w in ('spthe1', 'spthe2', 'spmax', 'f2max', 'fe2')):
+                    return ('TCMP_%s(%s, %s, %d)' % (self.REL[op], l[0], r[0], self.curline), 'bool')
+                return ('SCMP_%s(%s, %s, %d)' % (self.REL[op], l[0], r[0], self.curline), 'bool')
             if getattr(self, 'u', None) is not None and self.u.name.lower() in SHAPE_UNITS:
                 return ('SCMP_%s(%s, %s, %d)' % (self.REL[op], l[0], r[0], self.curline), 'bool')
             return ('CMP_%s(%s, %s, %d)' % (self.REL[op], l[0], r[0], self.curline), 'bool')
